@@ -2026,7 +2026,8 @@ class Gen:
                 ch = [x for x in ch if x[1] != "any_value"]
                 if ch:
                     _, fn, c, kind, null = self.wchoice([(x[0], x) for x in ch])
-                    t = [n for n in st.fresh(r, 3) if n not in b.cols][0]
+                    t = ([n for n in st.fresh(r, 3) if n not in b.cols] +
+                         [n for n in ("agg_t", "agg_t2", "agg_t3", "agg_t4") if n not in b.cols and n not in st.cols])[0]
                     cols = list(grp) + [t]
                     ci = {g: b.ci[g].copy() for g in grp}
                     for g in grp:
